@@ -453,6 +453,15 @@ def run_check(check, tier, seed):
     notes = []
     broken = []         # (what, detail): proof obligations / tie that no longer check
 
+    # checks started side by side share lean/: regenerating the tables, building and auditing are serialised
+    # (the lock is dropped before the cases run; it also ends with the process)
+    build_lock = open(os.path.join(VERIF, '.check.lock'), 'w')
+    try:
+        import fcntl
+        fcntl.flock(build_lock, fcntl.LOCK_EX)
+    except (ImportError, OSError):
+        pass
+
     # 1. translator
     tables_changed = False
     try:
@@ -516,6 +525,8 @@ def run_check(check, tier, seed):
             discharged += 1
         else:
             broken.append(('obligation', ob[0]))
+
+    build_lock.close()
 
     # 4./5. cases
     from . import srccov
